@@ -599,8 +599,23 @@ class SimThreading:
 
 
 class SimRandom:
+    """Stands in for the `random` module inside the library.  random() keeps drawing from the run's own stream (the stampede
+    recipe's early-recomputation lottery).  Every OTHER generator function draws from a per-process stream that starts from
+    the same state in every simulated process - the global generator of a program that seeds it at start-up, in each of its
+    workers and again after every restart.  The unchanged library draws nothing else from `random`; code that starts to
+    derive names or identifiers from it meets the repetition here."""
+
     def __getattr__(self, name):
-        return getattr(_random, name)
+        s = ACTIVE
+        if s is None or name.startswith('_') or name in ('Random', 'SystemRandom', 'seed'):
+            return getattr(_random, name)
+        streams = s.__dict__.setdefault('_proc_random', {})
+        pid = s.cur_proc().pid
+        rng = streams.get(pid)
+        if rng is None:
+            rng = streams[pid] = _random.Random(12345)
+        s.probe('process_random_drawn')
+        return getattr(rng, name)
 
     @staticmethod
     def random():
@@ -701,6 +716,8 @@ def install():
     recipes.random = SIM_RANDOM
     for mod in (core, fanout, persistent, recipes):
         mod.hash = sim_hash
+        if hasattr(mod, 'random') and mod is not recipes:
+            mod.random = SIM_RANDOM      # only code under test that imports it: the unchanged modules do not
     _installed = True
     return d
 
